@@ -373,10 +373,36 @@ def iters(ctx, report, facts, config, rule="C17.ITER"):
             calls = [x for x in evs if x[0] == "call"]
             tg = [x for x in calls if x[2].name == "get" and not x[2].local and Q.crate_fields(Q.table_access(ev, x[3][0])[0]) == [(adt, "tys")]]
             stores = [x for x in evs if x[0] == "store" and x[2] == cur]
-            if len(tg) != 1 or Q.strip(ev, tg[0][3][1]) != cur:
-                problems.append("the type id is not read with self.tys.get(self.index)")
+            # the slot is addressed either as self.tys.get(self.index) (None = end of table) or as self.tys[self.index]
+            # behind a comparison of self.index with self.tys.len()
+            conds = list(it.path.conds) + [c for e in rets for c in e.path.conds]
+            in_range = None
+            for (ct, cv, cn, cs) in conds:
+                nc = Q.norm_cmp(ct, cv)
+                if nc is None:
+                    continue
+                op, a_, b_ = nc
+                if Q.strip(ev, b_) == cur and Q.strip(ev, a_) != cur:
+                    op, a_, b_ = Q.FLIP[op], b_, a_
+                hi = Q.strip(ev, b_)
+                if Q.strip(ev, a_) == cur and Q.is_call(ev, hi, "len") and Q.crate_fields(Q.table_access(ev, hi[2][0])[0]) == [(adt, "tys")]:
+                    if op in ("Lt", "Ne"):
+                        in_range = True
+                    elif op in ("Ge", "Eq"):
+                        in_range = False
+            if len(tg) == 1 and Q.strip(ev, tg[0][3][1]) == cur:
+                slot = it.path.variant(tg[0][4])
+                ty = ("field", ("variant", tg[0][4], "Some"), "0", "std::option::Option")
+                is_ty = lambda t, ty=ty: Q.strip(ev, t) == ty
+            elif not tg and in_range is not None:
+                slot = "Some" if in_range else "None"
+
+                def is_ty(t):
+                    f_, i2, base = Q.table_access(ev, t)
+                    return Q.crate_fields(f_) == [(adt, "tys")] and len(i2) == 1 and Q.strip(ev, i2[0]) == cur and base == ("param", 1)
+            else:
+                problems.append("the type id is not read with self.tys.get(self.index), nor as self.tys[self.index] behind a comparison with self.tys.len()")
                 continue
-            slot = it.path.variant(tg[0][4])
             if slot == "None":
                 n_end += 1
                 if stores:
@@ -392,13 +418,12 @@ def iters(ctx, report, facts, config, rule="C17.ITER"):
                 continue
             if len(stores) != 1 or not fold_like_sem(stores[0][3], cur):
                 problems.append("self.index is advanced %d time(s) for a visited slot (expected exactly once, by 1)" % len(stores))
-            ty = ("field", ("variant", tg[0][4], "Some"), "0", "std::option::Option")
             fetches = [x for x in calls if x[2].key == tfi.key]
             if len(fetches) != 1:
                 problems.append("expected one try_fetch_internal call per visited slot")
                 continue
             rid = Q.strip(ev, fetches[0][3][1])
-            if not (Q.is_call(ev, rid, "from_type_id") and Q.strip(ev, rid[2][0]) == ty):
+            if not (Q.is_call(ev, rid, "from_type_id") and is_ty(rid[2][0])):
                 problems.append("the looked-up id is not ResourceId::from_type_id(the type id read from tys)")
             found = it.path.variant(fetches[0][4])
             if found is None:
@@ -491,32 +516,20 @@ def _sem_skeleton(ctx, facts, b):
 
 
 def sibling(ctx, report, facts, config, rule="C17.SIBLING"):
+    """The shared and the exclusive iterator (and lookup) do the same thing on every way through, modulo shared <-> exclusive:
+    compared on the canonical tabulation, so that the two may be spelled differently."""
+    tfi = facts.one(A.WORLD + "::try_fetch_internal")
+    ren = [("MetaIterMut", "MetaIter"), ("index_mut", "index"), ("cast_mut", "cast_const"), ("from_raw_parts_mut", "from_raw_parts")]
     a = facts.one(name="next", trait="std::iter::Iterator", self_head=A.METAITER)
     b = facts.one(name="next", trait="std::iter::Iterator", self_head=A.METAITERMUT)
-    sa, sb = _sem_skeleton(ctx, facts, a), _sem_skeleton(ctx, facts, b)
-    report.ob(rule, "MetaIter::next~MetaIterMut::next", sa == sb, "equal outcomes and semantic calls modulo shared<->exclusive (%d rows)" % len(sa) if sa == sb else "iterators diverge: %s vs %s" % (sa, sb), site=b.loc(), config=config)
+    opq = [tfi.key, A.RESID + "::from_type_id"]
+    sa, sb = W._tabulation(facts, a, opq, ren), W._tabulation(facts, b, opq, ren)
+    report.ob(rule, "MetaIter::next~MetaIterMut::next", sa == sb, "equal tabulations modulo shared<->exclusive (%d ways)" % len(sa) if sa == sb else
+              "iterators diverge: only shared: %s; only exclusive: %s" % ([x[:300] for x in sa if x not in sb][:2], [x[:300] for x in sb if x not in sa][:2]), site=b.loc(), config=config)
     g, gm = facts.one(MT + "::get"), facts.one(MT + "::get_mut")
-
-    def sk(b):
-        ev, ends = Q.sem(ctx, facts, b)
-        out = []
-        for e in ends:
-            names = []
-            for x in W._deep(e.path.events):
-                if x[0] != "call":
-                    continue
-                n = x[2].name or "?"
-                for a_, b_ in W.NORMALISE:
-                    if n == a_:
-                        n = b_
-                        break
-                if n in W.SEMANTIC_CALLS and n not in ("deref", "deref_mut", "clone", "cast*"):
-                    names.append(n)
-            out.append((e.kind, e.ret[2] if e.ret and e.ret[0] == "agg" else None, tuple(names)))
-        return sorted(out, key=str)
-
-    sa, sb = sk(g), sk(gm)
-    report.ob(rule, "get~get_mut", sa == sb, "equal outcomes and call skeletons (%d paths)" % len(sa) if sa == sb else "get / get_mut diverge: %s vs %s" % (sa, sb), site=gm.loc(), config=config)
+    sa, sb = W._tabulation(facts, g, [], ren), W._tabulation(facts, gm, [], ren)
+    report.ob(rule, "get~get_mut", sa == sb, "equal tabulations modulo shared<->exclusive (%d ways)" % len(sa) if sa == sb else
+              "get / get_mut diverge: only get: %s; only get_mut: %s" % ([x[:300] for x in sa if x not in sb][:2], [x[:300] for x in sb if x not in sa][:2]), site=gm.loc(), config=config)
 
 
 def run(ctx, report):
